@@ -42,6 +42,11 @@ def op(name, params, serial, results, code, wire, zero_from, accept_extra="", re
         if accept_extra:
             acc += " && " + accept_extra
         out.append(f"//@   ensures accept: err == nil ==> {acc}")
+        # ... and only for these reasons: a reply that is acceptable is never turned into an error
+        # (as a hypothesis the quantified wire.bcdok is written out byte by byte)
+        import re
+        accc = re.sub(r"wire\.bcdok\(R, (\d+), (\d+)\)", lambda m: "(" + " && ".join(f"bcd.ok(R[{k}])" for k in range(int(m.group(1)), int(m.group(1)) + int(m.group(2)))) + ")", acc)
+        out.append(f"//@   ensures complete: {accc} ==> err == nil")
         if result:
             out.append(f"//@   ensures result: err == nil ==> {result}")
     return "\n".join(out) + "\n"
